@@ -28,8 +28,8 @@ CLAIMS = {
  "C03": dict(
    text="Theorems (Model/Balance.v: owners list = primary + previous owners, moves with the newer-timestamp merge, deletes that walk the previous owners): for every sequence of puts, "
         "deletes, joins, table moves and prunes the newest copy over the owners list is the last acknowledged entry, reads return it wherever it lives, deletes remove it "
-        "everywhere, moves terminate and at quiescence each live key is stored once on the primary (being proved in Proofs/BalanceProofs.v; until merged the registered obligations "
-        "are the merge law C06_merge_max, C11_transfer and C02_survives). Executed: real clusters grown by 1-4 joins with multi-table fragments, operations placed after the push / "
+        "everywhere, hand-over steps are invisible to readers, moves terminate and at quiescence each live key is stored exactly once on the primary (C03_resolve_invariant, "
+        "C03_quiescent_once, ...; increasing timestamps are shown necessary by C03_resolve_without_fresh_refuted). Executed: real clusters grown by 1-4 joins with multi-table fragments, operations placed after the push / "
         "between single balancer runs / after stabilisation, optional graceful leave; every Get at every point, final white-box placement and scans.",
    note=TB + "crash of sender or receiver in the middle of a move is not injected (needs a guarded hook); memberlist and the balancer's timing are driven explicitly by the harness.",
    ref="DESIGN.md 9 C03"),
@@ -111,11 +111,33 @@ CLAIMS = {
  "C12": dict(
    text="Theorems: the structural invariant swf3 (unique hkeys, accounting, distinct coefficients) is preserved by every operation; every "
         "SCAN page makes progress, a full iteration terminates within live+tables+1 pages and yields exactly the present matching records, "
-        "each once, for every COUNT>=1, matcher and table layout (C12_store_complete). Executed against the real kvstore on shaped histories "
-        "(holes, recycled tables) with COUNT in {1,2,3,10,1000} on every run.",
-   note=TB + "store level only so far (kvstore cursors); the client iterator over several members is exercised by C15/C19 scans but has no theorem yet; "
-        "regexp matching is a parameter of the model (prefix patterns in the correspondence).",
+        "each once, for every COUNT>=1, matcher and table layout (C12_store_complete). Client iterator (Model/Iter.v, the state machine of "
+        "cluster_iterator.go with per-owner cursors, partitionKeys de-duplication, removeScannedOwner incl. its slice aliasing): for every "
+        "page sequence the listed primary and replica owner answer, the iteration of a partition terminates and hands out exactly the keys "
+        "found on either, each once, and the whole iteration yields exactly the keys of all partitions without repetition "
+        "(C12_iterator_exactly_once). Executed against the real kvstore on shaped histories (holes, recycled tables) with COUNT in "
+        "{1,2,3,10,1000}, and against real 1-3 member clusters (cluster client and embedded iterators, COUNT/MATCH variants) where the "
+        "model has to reproduce the exact key sequence, on every run.",
+   note=TB + "the iterator theorem covers one primary and at most one replica owner per partition (stable cluster, ReplicaCount<=2); with two "
+        "owners in one list the state machine as coded terminates only thanks to the periodic re-fetch of the routing table "
+        "(C12_two_replica_owners_need_refetch), which is timing and not modelled: ReplicaCount 3 is judged by the predicate only; "
+        "regexp matching is a parameter of the model (prefix patterns in the correspondence); network errors during an iteration are not modelled.",
    ref="DESIGN.md 9 C12"),
+ "C13": dict(
+   text="Theorems over the Gallina model of the routing-table computation (Model/Routing.v; every previous table without duplicate ids, every "
+        "live set, every LengthOfPart answer function incl. failed calls, every partition count and every hash ring satisfying three ring "
+        "facts): the pruning loop as coded is a filter; every recomputed partition has a live ring owner last, no duplicates, only live "
+        "members with the listed identity, extra owners/backups only when they reported data or could not be asked, the last min(R,N)-1 "
+        "backups = the ring's closest minus the owner (C13_distribute_valid / C13_valid_table); minimality and idempotence at the fixpoint; "
+        "coordinator = oldest member independent of list order; push agreement; client and member map a key to the same partition and "
+        "owner; balance from the ring's load fact. Tied to internal/cluster/routingtable by an exact differential of "
+        "distributePrimaryCopies / distributeBackups / processLeftOverDataReports on thousands of generated cases per run and by "
+        "end-to-end membership scripts (join, graceful stop, kill, re-join under the same address, crash+restart at once) on real "
+        "clusters judged by the executable valid_table.",
+   note=TB + "the hash ring (buraksezer/consistent) and memberlist are oracles (the three ring facts are re-validated on every ring used; "
+        "membership is an input); member names unique, ids and birthdates collision free; 'eventually' is judged with timeouts (settle) "
+        "on the real cluster; a coordinator recomputation blocked for >= 30 s is reported as a routing stall (D39, fixed).",
+   ref="DESIGN.md 9 C13, docs/DESIGN-C13.md"),
  "C14": dict(
    text="Theorems over the Gallina model of internal/pubsub/pubsub.go + the publish fan-out (every glob matcher, number of members, operation "
         "sequence): refinement to a set-of-subscriptions specification, exactly-once delivery per matching subscription and to nobody else, "
@@ -126,7 +148,7 @@ CLAIMS = {
    ref="DESIGN.md 9 C14, docs/DESIGN-C14.md"),
  "C15": dict(
    text='Theorems: for every Put configuration (at most one of EX/PX/EXAT/PXAT, at most one of NX/XX) and for Expire/PExpire, Lock EX|PX, Lease/PLease, Scan options, Get/GetPut RW, Destroy LC, GetEntry/DelEntry RC, the server parses the command the client-side builders produce into exactly the same configuration (C15_*_roundtrip over Model/Proto.v), and the owner-side semantics (Model/DMap.v) depends on the decoded configuration only. Executed: exhaustive grid of operations x options x prior state x 7 client paths (embedded owner/non-owner/backup, cluster client, raw RESP, pipeline) on real clusters, judged by one reference semantics for all paths and compared with the model.',
-   note=TB + 'strconv float/int formatting enter the round-trip theorems as explicit hypotheses (oracles); durations are multiples of 1 ms; the handler-side two-switch decoding is covered by the differential, not yet by a theorem.',
+   note=TB + 'strconv float/int formatting enter the round-trip theorems as explicit hypotheses (oracles); durations are multiples of 1 ms; the float seconds->milliseconds conversion is an oracle.',
    ref='DESIGN.md 9 C15, docs/DESIGN-C16.md'),
  "C20": dict(
    text="Theorems: in every reachable state (any sequence of Put/PutRaw/Delete/UpdateTTL/Compaction) each table satisfies inuse+garbage=offset<=allocated "
@@ -154,9 +176,9 @@ def main():
           for i in range(1, 21) if "C%02d" % i not in CLAIMS]
     man = {"version": 1, "setup_cmd": "./setup.sh",
            "hooks": {"guard": "verif",
-                     "enable": "go build -tags verif -overlay /verif/build/overlay.json ./cmd/verifx (add-only files from /verif/harness/overlay; nothing guarded is committed in /repo)",
+                     "enable": "go build -tags verif -overlay /verif/build/overlay.json ./cmd/verifx (add-only files from /verif/harness/overlay + the fail points of internal/verifhook, which are empty functions without the tag)",
                      "baseline_off_cmd": "cd /repo && go test -vet=off -count=1 -timeout 25m ./...",
-                     "source_commits": [], "add_only": True},
+                     "source_commits": ["caf7c4a"], "add_only": True},
            "engines": [{"name": "coq-model+correspondence", "path": "/verif/coq, /verif/harness, /verif/check, /verif/lib, /verif/checks",
                         "serves_properties": sorted(CLAIMS),
                         "kind_free_text": "Gallina model + theorems (Coq 8.16.1), tied to /repo by a differential correspondence check evaluated with vm_compute"}],
